@@ -99,6 +99,12 @@ pub fn drive_hash(t: &mut Tracer, tier: &str, seed: u64, plan: Option<String>) {
         (be_add_small(&vec![0u8; 32], 1), b"one".to_vec(), "sign"), (be_add_small(&nhex, -1), b"n-1".to_vec(), "enc"), (be_add_small(&vec![0u8; 32], 2), b"two".to_vec(), "exch"),
     ];
     for i in 0..(if thorough { 40 } else { 5 }) { let len = rng.below(40) as usize; masters.push((scalar(&mut rng), rng.bytes(len), ["sign", "enc", "exch"][i % 3])); }
+    // limb-aligned and sparse master keys (j * 2^64, j * 2^128, 2^192, 2^255, 2^128 + c ...): products with zero limbs in the mod-N arithmetic
+    for (i, (sh, j)) in [(64usize, 1u8), (64, 3), (128, 1), (128, 3), (128, 0xff), (192, 1), (192, 0x7f), (255, 1)].iter().enumerate() {
+        let mut k = vec![0u8; 32]; if *sh == 255 { k[0] = 0x80; } else { k[31 - sh / 8] = *j; }
+        masters.push((k, rng.bytes(3 + i), ["sign", "enc", "exch"][i % 3]));
+    }
+    for i in 0..4 { masters.push((sparse_scalar(&mut rng, i), rng.bytes(4 + i), ["enc", "exch", "sign"][i % 3])); }
     for v in &planv {
         if v["kind"] == "zerokey" { masters.push((arr(&v["k"]), arr(&v["idb"]), match v["hid"].as_u64().unwrap() { 1 => "sign", 3 => "enc", _ => "exch" })); }
     }
@@ -301,6 +307,23 @@ pub fn drive_encrypt(t: &mut Tracer, tier: &str, seed: u64, plan: Option<String>
             let c2: Vec<u8> = m.iter().zip(k.iter()).map(|(a, b)| a ^ b).collect();
             let c3 = gm_sm3::sm3_hash(&[&c2[..], &k[m.len()..m.len() + 32]].concat());
             decrypt_event(t, &sess(), c, id, id, &[c1, c3.to_vec(), c2].concat(), None, name);
+        }
+        // an off-curve C1 with C2 / C3 CONSISTENT with whatever the library's own Miller loop makes of that point (a decryption
+        // that relies on the C3 comparison instead of the curve test accepts it): w' through the pairing hook, K from the KDF hook
+        if let Some(dk) = c.msk.extract_key(id) {
+            for which in 0..(if thorough { 4 } else { 2 }) {
+                let mut c1 = ct[..65].to_vec();
+                match which { 0 => c1[64] ^= 1, 1 => c1[32] ^= 2, 2 => { c1.swap(10, 50); } _ => { for b in c1[1..65].iter_mut() { *b = rng.next() as u8; } c1[1] &= 0x3f; c1[33] &= 0x3f; } }
+                let c1b = c1.clone();
+                let w = guard_timed(60, move || Ok::<_, String>(verif::pairing(&dk.de, &verif::point_from_bytes(&c1b))));
+                if let Some(w1) = w.ok() {
+                    let m = b"invalid curve".to_vec();
+                    let k = gm_sm9::key::verif_kdf(&[&c1[1..], &w1[..], &id[..]].concat(), m.len() + 32);
+                    let c2: Vec<u8> = m.iter().zip(k.iter()).map(|(a, b)| a ^ b).collect();
+                    let c3 = gm_sm3::sm3_hash(&[&c2[..], &k[m.len()..m.len() + 32]].concat());
+                    decrypt_event(t, &sess(), c, id, id, &[c1, c3.to_vec(), c2].concat(), None, "c1-offcurve-consistent");
+                }
+            }
         }
         let mut id2 = id.clone(); id2.push(1);
         decrypt_event(t, &sess(), c, id, &id2, ct, None, "other-identity");
